@@ -100,43 +100,69 @@ func propC18(c *Check) {
 				c.Held("R1", "round-trip "+name, p.Pos(f.Pos()), "read on export, written on import")
 			}
 		}
-		// GenesisState fields
+		// GenesisState fields: assigned somewhere in the export (ExportGenesis, the repository functions it calls and
+		// their closures — e.g. the callback of a Walk), consumed somewhere in the import
 		gt := p.LookupType("x/"+mod+"/types", "GenesisState")
 		gs := gt.Underlying().(*types.Struct)
+		family := func(root *ssa.Function) []*ssa.Function {
+			reach, _ := p.CG().Reach([]*ssa.Function{root}, nil)
+			var out []*ssa.Function
+			for f := range reach {
+				if len(f.Blocks) > 0 && isProdPkgFn(f) && !p.isGenerated(f) {
+					out = append(out, f)
+				}
+			}
+			for _, f := range p.Funcs {
+				if f.Parent() != nil && reach[rootOf(f)] && !reach[f] && len(f.Blocks) > 0 {
+					out = append(out, f)
+				}
+			}
+			return out
+		}
+		isGS := func(t types.Type) bool { nt := namedOf(t); return nt != nil && nt.Obj() == gt.Obj() }
 		exp := map[string]bool{}
-		for _, s := range p.renderedStores(eg) {
-			if m := regexp.MustCompile(`^new\(` + mod + `/types\.GenesisState\)#0\.(\w+)$`).FindStringSubmatch(s.addr); m != nil {
-				exp[m[1]] = true
-			}
-		}
-		// import: reads of $2.<Field> anywhere in InitGenesis (including getters)
-		var igText []string
-		r := p.R(ig)
-		for _, b := range ig.Blocks {
-			for _, in := range b.Instrs {
-				if v, ok := in.(ssa.Value); ok {
-					igText = append(igText, r.E(v))
-				}
-				if st, ok := in.(*ssa.Store); ok {
-					igText = append(igText, r.E(st.Val))
-				}
-				if ci, ok := in.(ssa.CallInstruction); ok {
-					igText = append(igText, p.CallStr(ci))
+		for _, f := range family(eg) {
+			for _, b := range f.Blocks {
+				for _, in := range b.Instrs {
+					if st, ok := in.(*ssa.Store); ok {
+						if fa, ok := st.Addr.(*ssa.FieldAddr); ok && isGS(fa.X.Type()) {
+							exp[fieldName(fa.X.Type(), fa.Field)] = true
+						}
+					}
 				}
 			}
 		}
-		all := strings.Join(igText, "\n")
+		imp := map[string]bool{}
+		for _, f := range family(ig) {
+			for _, b := range f.Blocks {
+				for _, in := range b.Instrs {
+					switch x := in.(type) {
+					case *ssa.FieldAddr:
+						if isGS(x.X.Type()) {
+							imp[fieldName(x.X.Type(), x.Field)] = true
+						}
+					case *ssa.Field:
+						if isGS(x.X.Type()) {
+							imp[fieldName(x.X.Type(), x.Field)] = true
+						}
+					case ssa.CallInstruction:
+						if cf := calleeFunc(x.Common()); cf != nil && strings.HasPrefix(cf.Name(), "Get") && len(x.Common().Args) > 0 && isGS(x.Common().Args[0].Type()) {
+							imp[strings.TrimPrefix(cf.Name(), "Get")] = true
+						}
+					}
+				}
+			}
+		}
 		for i := 0; i < gs.NumFields(); i++ {
 			f := gs.Field(i)
 			if !f.Exported() || strings.HasPrefix(f.Name(), "XXX_") {
 				continue
 			}
 			name := mod + ".GenesisState." + f.Name()
-			imp := strings.Contains(all, "$2."+f.Name()) || strings.Contains(all, "GenesisState.Get"+f.Name()+"($2)")
 			switch {
 			case !exp[f.Name()]:
 				c.Violated("R1", "genesis-field-exported "+name, p.Pos(f.Pos()), "ExportGenesis never assigns this field")
-			case !imp:
+			case !imp[f.Name()]:
 				c.Violated("R1", "genesis-field-imported "+name, p.Pos(f.Pos()), "InitGenesis never reads this field")
 			default:
 				c.Held("R1", "genesis-field "+name, p.Pos(f.Pos()), "")
@@ -397,6 +423,16 @@ func propC19(c *Check) {
 				}
 			}
 			key := FuncKey(f) + "|" + msg
+			// the same reviewed failure may live in a helper of the hook (extracted by a refactoring): it is the
+			// failure of that module's hook with that message, whichever function of the module constructs it
+			if _, listed := reviewed[key]; !listed {
+				mod := strings.Join(strings.SplitN(FuncKey(f), "/", 3)[:2], "/")
+				for rk := range reviewed {
+					if strings.HasPrefix(rk, mod+"/") && strings.HasSuffix(rk, "|"+msg) && msg != "" {
+						key = rk
+					}
+				}
+			}
 			// only exits that are actually returned from the hook (not the tx-only helpers reachable through shared functions)
 			keysFound = append(keysFound, key)
 			if FuncKey(f) == "x/goat/keeper.Keeper.Finalized" {
@@ -457,7 +493,11 @@ func mayBeNilConst(v ssa.Value, depth int) bool {
 	case *ssa.Const:
 		return x.Value == nil
 	case *ssa.Phi:
-		for _, e := range x.Edges {
+		for k, e := range x.Edges {
+			// a transition that is the impossible outcome of a nil test of a known failure value carries nothing
+			if k < len(x.Block().Preds) && deadEdge(x.Block().Preds[k], x.Block()) {
+				continue
+			}
 			if mayBeNilConst(e, depth+1) {
 				return true
 			}
